@@ -246,3 +246,44 @@ pub fn design(rng: &mut Rng, n: usize, p: usize, maxcond: f64, smin: f64, smax: 
     let means: Vec<f64> = (0..p).map(|j| if mean_mag > 0.0 { rng.normal() * mean_mag * scales[j] } else { 0.0 }).collect();
     Mat::from_fn(n, p, |i, j| base.at(i, j) * scales[j] + means[j])
 }
+
+/// Label sets that are valid (k distinct finite values, returned ascending) but defeat the usual shortcuts:
+/// end points 0 and k-1 with fractional values between them, values that agree after truncation to an integer,
+/// values that are distinct only in double precision (equal once narrowed to f32), integers beyond the 16/32-bit
+/// and 2^24 ranges, and values that collide modulo 65536.
+pub fn tricky_labels(rng: &mut Rng, k: usize) -> (Vec<f64>, &'static str) {
+    for _ in 0..50 {
+        let (mut v, name): (Vec<f64>, &'static str) = match rng.below(6) {
+            0 => {
+                let mut v = vec![0.0, (k - 1) as f64];
+                while v.len() < k {
+                    v.push(rng.int(1, (8 * (k as i64 - 1) - 1).max(1)) as f64 / 8.0 + 0.0625);
+                }
+                (v, "ends-0-and-k-1/fractional-between")
+            }
+            1 => {
+                let base = rng.int(-5, 5) as f64;
+                ((0..k).map(|_| base + rng.int(1, 15) as f64 / 16.0).collect(), "equal-after-truncation")
+            }
+            2 => {
+                let base: f64 = *rng.pick(&[1.0e8, 123456789.0, 0.1, -3.3, 1.0e12]);
+                ((0..k).map(|j| if base.abs() >= 1e6 { base + j as f64 } else { base * (1.0 + j as f64 * 1e-9) }).collect(), "distinct-only-in-f64")
+            }
+            3 => {
+                let base: f64 = *rng.pick(&[65535.0, 65536.0, 16777216.0, 2147483647.0, 4294967296.0, 9007199254740990.0]);
+                ((0..k).map(|j| base + j as f64 - if rng.bool(0.5) { 1.0 } else { 0.0 }).collect(), "beyond-integer-type-ranges")
+            }
+            4 => {
+                let r = rng.int(0, 40) as f64;
+                ((0..k).map(|j| r + 65536.0 * j as f64).collect(), "equal-modulo-65536")
+            }
+            _ => ((0..k).map(|j| -(j as f64) - if j == 0 { 0.0 } else { 0.5 }).collect(), "zero-and-negative-fractions"),
+        };
+        v.sort_by(|a, b| a.partial_cmp(b).unwrap_or(std::cmp::Ordering::Equal));
+        v.dedup();
+        if v.len() == k && v.iter().all(|x| x.is_finite()) {
+            return (v, name);
+        }
+    }
+    ((0..k).map(|j| j as f64 * 1.5).collect(), "multiples-of-1.5")
+}
